@@ -92,6 +92,8 @@ pub const CODE_SYSTEM_ERROR: &str = "system-error";
 pub const CODE_CORRUPTION: &str = "corruption";
 /// A manifest string contains a disallowed newline.
 pub const CODE_NEWLINE_DISALLOWED: &str = "newline-disallowed";
+/// A string (or info key) that the manifest's line format cannot represent was added to an edit.
+pub const CODE_STRING_UNSUPPORTED: &str = "string-unsupported";
 /// The manifest exists and `fail_if_exists` was specified.
 pub const CODE_MANIFEST_EXISTS: &str = "manifest-exists";
 /// The manifest does not exist and `fail_if_not_exist` was specified.
@@ -118,6 +120,12 @@ fn corruption(what: impl AsRef<str>) -> SError {
 fn newline_disallowed(what: impl AsRef<str>) -> SError {
     error(CODE_NEWLINE_DISALLOWED)
         .with_message("manifest string contains newline")
+        .with_string_field("what", what.as_ref())
+}
+
+fn string_unsupported(what: impl AsRef<str>) -> SError {
+    error(CODE_STRING_UNSUPPORTED)
+        .with_message("manifest cannot represent string")
         .with_string_field("what", what.as_ref())
 }
 
@@ -558,6 +566,12 @@ impl Edit {
 
     /// Set the info field `c` to `s`.
     pub fn info(&mut self, c: char, s: &str) -> Result<(), SError> {
+        // NOTE:  '+' and '-' are the line markers of added and removed strings.
+        if c == '+' || c == '-' || !c.is_ascii() {
+            return Err(string_unsupported(
+                "info keys must be ASCII and must not be '+' or '-'",
+            ));
+        }
         Self::check_str(&c.to_string())?;
         let s = Self::check_str(s)?;
         self.info.insert(c, s);
@@ -573,6 +587,13 @@ impl Edit {
         if s.chars().any(|c| c == '\n') {
             Err(newline_disallowed(
                 "added strings must not contain newlines",
+            ))
+        } else if s.is_empty() || !s.is_ascii() || s.ends_with('\r') {
+            // NOTE:  The reader takes lines of ASCII text of at least one character after the
+            // marker, and a trailing carriage return belongs to the line ending.  A string it
+            // cannot read back must not be written.
+            Err(string_unsupported(
+                "strings must be non-empty ASCII and must not end in a carriage return",
             ))
         } else {
             Ok(s.to_owned())
